@@ -159,12 +159,15 @@ def run(repo, rep):
             probs.append('yielded data set is %s' % dsv)
         if not has_ds and dsv != 'None':
             probs.append('yields %s when the response has no data set' % dsv)
-        pend_pos = ('+%s.is_pending' % stv) in s.conds
-        pend_neg = ('-%s.is_pending' % stv) in s.conds
-        if kind == 'stop' and not pend_neg:
+        from ..status_model import allowed_types
+        types = allowed_types(s.conds, stv, repo) if is_token(stv) else None
+        if types is None:
+            probs.append('the test that decides whether to go on is not a decidable condition on the status [%s]' % ' '.join(s.conds))
+        elif kind == 'stop' and 'Pending' in types:
             probs.append('iteration ends although the status may be pending [%s]' % ' '.join(s.conds))
-        if kind == 'next' and not pend_pos:
-            probs.append('iteration continues although the status is not pending [%s]' % ' '.join(s.conds))
+        elif kind == 'next' and types != {'Pending'}:
+            probs.append('iteration continues although the status is not pending (%s) [%s]'
+                         % ('/'.join(sorted(types)) or 'no type', ' '.join(s.conds)))
     sends = [(e, s) for e, s in a.log if e.kind == 'send']
     if len({e.line for e, s in sends}) != 1:
         probs.append('%d request send sites' % len({e.line for e, s in sends}))
